@@ -328,9 +328,10 @@ theorem down_over_sram_refines (c : DownCfg) (sc : SramCfg) (init : List Byte) (
     ⟨Down.ratio_pos c, rfl, Sram.inv_init sc init⟩ ins hm (fun _ _ => trivial)
 
 /-- **`master → UpConverter → SRAM` is a flat byte memory** (`converter_over_sram`, widening direction): the
-    master sees `ratio · 2^n` narrow words. -/
+    master sees `ratio · 2^n` narrow words.  Holds for bursting SRAM buses too, whatever burst tags the master
+    drives: the converter does not forward them (the wide slave sees classic cycles). -/
 theorem up_over_sram_refines (c : UpCfg) (hpos : 0 < c.nbm) (sc : SramCfg) (init : List Byte) (n : Nat)
-    (hnb : sc.nb = c.nbs) (hrw : sc.readOnly = false) (hnb0 : sc.burst = false)
+    (hnb : sc.nb = c.nbs) (hrw : sc.readOnly = false)
     (hdepth : sc.depth = 2 ^ n) (haw : n ≤ sc.aw)
     (ins : List (Req × Unit)) (hm : Classic ((upConv c).over (sram sc init)) ins) :
     Consistent c.nbm (Mem.ofList (Sram.initMem sc init))
@@ -341,13 +342,12 @@ theorem up_over_sram_refines (c : UpCfg) (hpos : 0 < c.nbm) (sc : SramCfg) (init
   rw [hnb] at hS
   exact (Up.refines c (sram sc init) sc.idx _ (Sram.Inv sc) hpos
       (fun a => by simp only [Sram.idx_pow2 sc n hdepth haw])
-      (fun _ => True) (Sram.NoBurst sc) (fun _ _ _ => by simp [Sram.NoBurst, Sram.adrBurst, hnb0]) hS).run _
+      (fun _ => True) (Sram.NoBurst sc) (fun _ _ _ => by simp [Sram.NoBurst, Sram.adrBurst, Up.toSlave]) hS).run _
     (Sram.inv_init sc init) ins hm (fun _ _ => trivial)
 
-/-- Negative witness for the hypothesis `sc.burst = false` of `up_over_sram_refines` (finding
-    C07-upconverter-burst-passthrough): the UpConverter forwards `cti` unchanged, so a bursting SRAM advances its
-    address counter on every narrow beat.  8-bit master over a 16-bit bursting SRAM, write burst to 2, 3, 4
-    (`cti` 2, 2, 7), then a classic read of 3: it returns the old content 0 — the byte went to address 5. -/
+/-- The repaired defect C07-upconverter-burst-passthrough (the UpConverter used to forward `cti`, so a bursting
+    SRAM advanced its address counter on every narrow beat): 8-bit master over a 16-bit *bursting* SRAM, write
+    burst to 2, 3, 4 (`cti` 2, 2, 7), then classic reads of 3 and 5 — now a flat-memory history. -/
 example :
     let c : UpCfg := { nbm := 1, cbits := 1 }
     let sc : SramCfg := { nb := 2, depth := 8, aw := 4, readOnly := false, burst := true }
@@ -355,11 +355,11 @@ example :
       ({ cyc := true, stb := true, we := true, adr := a, sel := [true], dat := [d], cti := cti, bte := 0 }, ())
     let r (a : Nat) : Req × Unit :=
       ({ cyc := true, stb := true, we := false, adr := a, sel := [true], dat := [], cti := 0, bte := 0 }, ())
-    let ins := [w 2 0xA2 2, w 2 0xA2 2, w 3 0xB3 2, w 4 0xC4 7, (Req.idle, ()), r 3, r 3, (Req.idle, ()), r 5, r 5]
-    BurstMaster ((upConv c).over (sram sc [])) true ins ∧
+    let ins := [w 2 0xA2 2, w 2 0xA2 2, w 3 0xB3 2, w 3 0xB3 2, w 4 0xC4 7, w 4 0xC4 7, (Req.idle, ()), r 3, r 3,
+                (Req.idle, ()), r 5, r 5]
+    Classic ((upConv c).over (sram sc [])) ins ∧
     (ops ((upConv c).over (sram sc [])) id ins).map (fun op => (op.adr, op.we, op.dat)) =
-      [(2, true, [0xA2]), (3, true, [0xB3]), (4, true, [0xC4]), (3, false, [0]), (5, false, [0xB3])] ∧
-    ¬ Consistent c.nbm (Mem.ofList []) (ops ((upConv c).over (sram sc [])) id ins) := by decide
+      [(2, true, [0xA2]), (3, true, [0xB3]), (4, true, [0xC4]), (3, false, [0xB3]), (5, false, [0])] := by decide
 
 /-- **`master → Cache → SRAM` is a flat byte memory** (`_partial`, same hypothesis as `cache_refines_mem_partial`):
     the real SRAM model (two-cycle classic slave that writes in both cycles) fills the cache's slave address space
